@@ -750,7 +750,8 @@ def c10_independent(ctx):
 # q = sqrt(lambda)/2M amplifies it by M^2/q^2, which is below 1e6 unless a proposed mass lies within 1e-12 (relative) of the edge of its range; none of the
 # <= 3e6 uniform mass proposals compared does (chance 3e-6), observed differences are <= 1e-14.  Momenta: the boost conditioning of _kin_report applies to both
 # samples compared - an event that contains a sub-system {k..n} with Lorentz factor gamma > 750 (massless daughters only; frequent among WEIGHTED events, whose
-# sub-system masses are uniform down to zero) is compared at 8 eps gamma^2 * s*m0 instead (observed: 1.02e-9 at gamma = 1.1e3 for 1.0 -> 3 massless, scale 1e-4).
+# sub-system masses are uniform down to zero) is compared at 8 eps gamma^2 * s*m0 instead (measured over 300 seeds x 4 scales on the massless three- and four-body sets: deviation <= 0.09 * 8 eps gamma^2,
+# e.g. 1.02e-9 at gamma = 3980 for 1.0 -> 3 massless at scale 1e-4, tf seed 2600; largest raw deviation 2.2e-7 at gamma = 6.4e4).
 SCALE_SETS = [
     (3.0, [0.5, 0.3, 0.14]),
     (1.0, [0.0, 0.0, 0.0]),
